@@ -62,6 +62,7 @@ class Heap:
             'AnsiString': {ro.TEXT: 'str', ro.TABLE: 'dict:' + ro.POINT},
             ro.POINT: {ro.START: 'list:SETTING', ro.STOP: 'list:SETTING'},
             'AnsiStr': {ro.WRAPPED: 'obj:AnsiString'},
+            'AnsiFormat': {'_ansi_settings': 'list:SETTING'},
             ro.ITERATOR: {'settings_dict': 'dict:' + ro.POINT, ro.ACTIVE: 'list:SETTING'},
             '_AnsiCharIterator': {'s': 'obj:AnsiString'},
             '_AnsiStrCharIterator': {'s': 'obj:AnsiString'},
@@ -86,6 +87,8 @@ class Heap:
             k = 'obj:' + (ctx.func.cls or '?')
         elif root.startswith('Arg:'):
             k = ctx.arg_kind(root[4:])
+        elif root.startswith('Glob:'):
+            k = 'dict:' + root[5:]        # an Enum class: a mapping name -> member object
         else:
             k = '?'
         for fld in path:
@@ -290,11 +293,17 @@ class FnAnalysis:
         if isinstance(e, ast.Name):
             if e.id in self.env:
                 return set(self.env[e.id])
+            if e.id in self.m.classes and any('Enum' in b for b in self.m.classes[e.id].bases):
+                return {('Glob:' + e.id, ())}
             if e.id == '__class__' or e.id in self.m.classes:
                 return {IMM}
             return {IMM} if e.id in ('None', 'True', 'False') else set()
         if isinstance(e, ast.Attribute):
             base = self.ev(e.value)
+            if base and all(b[0].startswith('Glob:') and not b[1] for b in base) and e.attr not in ('value', 'name'):
+                meth = self.m.classes[next(iter(base))[0][5:]].methods
+                if e.attr not in meth:
+                    return {(b[0], ('[*]',)) for b in base}
             # a @property of a package class is a call
             out = set()
             hit = False
@@ -453,7 +462,7 @@ class FnAnalysis:
                     return self.apply_call(e, q, argrefs[0] if argrefs else set(), argrefs[1:], kwrefs)
                 return {IMM}
             if isinstance(f.value, ast.Call) and call_name(f.value) == 'super':
-                return self.fresh(e, 'obj:' + (self.func.cls or '?')) if name == '__new__' else {IMM}
+                return self.fresh(e, self.func.cls or '?') if name == '__new__' else {IMM}
             recv = self.ev(f.value)
             kinds = {self.H.kind_of(r, self) for r in recv}
             # container semantics
